@@ -258,3 +258,98 @@ func isMembershipPredicate(f *ssa.Function) (string, string) {
 	}
 	return "type == t || slices.Contains(tt, type) on all 4 rows of the truth table", ""
 }
+
+// allByContainsFunc: f, the matcher IsAll returns, written with the slices package:
+//
+//	return !slices.ContainsFunc(ms, func(m Matcher) bool { return !m(p) })
+//
+// — "no matcher rejects p", which is "every matcher accepts p" (true for no matchers, stops at the first rejection).
+// Both negations are part of the form: without them the function is "some matcher accepts". Returns the inner function
+// literal, or nil.
+func allByContainsFunc(f *ssa.Function) *ssa.Function {
+	if f == nil || f.Parent() == nil || len(f.Params) != 1 || len(f.FreeVars) != 1 {
+		return nil
+	}
+	rets := returnsOf(f)
+	if len(rets) != 1 || len(rets[0].Results) != 1 {
+		return nil
+	}
+	not, ok := rets[0].Results[0].(*ssa.UnOp)
+	if !ok || not.Op != token.NOT {
+		return nil
+	}
+	cl, ok := not.X.(*ssa.Call)
+	if !ok || cl.Call.StaticCallee() == nil || len(cl.Call.Args) != 2 {
+		return nil
+	}
+	callee := originOf(cl.Call.StaticCallee())
+	if callee.Pkg == nil || callee.Pkg.Pkg.Path() != "slices" || callee.Name() != "ContainsFunc" {
+		return nil
+	}
+	// the scanned list is the captured list of matchers
+	ld, ok := cl.Call.Args[0].(*ssa.UnOp)
+	if !ok || ld.Op != token.MUL || ld.X != ssa.Value(f.FreeVars[0]) {
+		if cl.Call.Args[0] != ssa.Value(f.FreeVars[0]) {
+			return nil
+		}
+	}
+	mc, ok := cl.Call.Args[1].(*ssa.MakeClosure)
+	if !ok || len(mc.Bindings) != 1 {
+		return nil
+	}
+	g, ok := mc.Fn.(*ssa.Function)
+	if !ok || len(g.Params) != 1 || len(g.FreeVars) != 1 {
+		return nil
+	}
+	// the binding is f's own parameter (the packet), possibly through its spill cell
+	bind := mc.Bindings[0]
+	if bind != ssa.Value(f.Params[0]) {
+		al, isAl := bind.(*ssa.Alloc)
+		stored := false
+		if isAl {
+			for _, ref := range *al.Referrers() {
+				if st, ok := ref.(*ssa.Store); ok && st.Addr == ssa.Value(al) {
+					if st.Val != ssa.Value(f.Params[0]) {
+						return nil
+					}
+					stored = true
+				}
+			}
+		}
+		if !stored {
+			return nil
+		}
+	}
+	grets := returnsOf(g)
+	if len(grets) != 1 || len(grets[0].Results) != 1 {
+		return nil
+	}
+	gnot, ok := grets[0].Results[0].(*ssa.UnOp)
+	if !ok || gnot.Op != token.NOT {
+		return nil
+	}
+	gc, ok := gnot.X.(*ssa.Call)
+	if !ok || gc.Call.IsInvoke() || gc.Call.StaticCallee() != nil || gc.Call.Value != ssa.Value(g.Params[0]) || len(gc.Call.Args) != 1 {
+		return nil
+	}
+	arg := gc.Call.Args[0]
+	if ld, ok := arg.(*ssa.UnOp); ok && ld.Op == token.MUL {
+		arg = ld.X
+	}
+	if arg != ssa.Value(g.FreeVars[0]) {
+		return nil
+	}
+	// nothing else happens in either function
+	for _, fn := range []*ssa.Function{f, g} {
+		n := 0
+		allInstrs(fn, func(in ssa.Instruction) {
+			if _, ok := in.(ssa.CallInstruction); ok {
+				n++
+			}
+		})
+		if n != 1 {
+			return nil
+		}
+	}
+	return g
+}
